@@ -2,7 +2,8 @@
   DDProps.C17Capacity3 — the capacity layer, operation by operation (round 3).
 
   DONE here: `_quantify` / `BDD.quantify` / `exist` / `forall` and the quantifier aliases of
-  `apply` (so `apply` with capacity now covers EVERY operator: `applyCapQ`).
+  `apply` (so `apply` with capacity now covers EVERY operator: `applyCapQ`); `cofactor` / `let` with
+  Boolean values; `compose` / `let` with functions; `rename` / `let` with names / `copy_bdd`.
   For each: the twin over an arbitrary `find_or_add` (and nested `ite`) is the model when
   instantiated with the capacity-free ones; the three-outcome specification holds over ANY
   `find_or_add` / `ite` with three-outcome specifications (documented result | aborted by a
@@ -15,6 +16,7 @@
 -/
 import DDProofs.Capacity3Quantify
 import DDProofs.Capacity3Cofactor
+import DDProofs.Capacity3Rename
 import DDProps.C17Capacity2
 open Std
 
@@ -124,5 +126,58 @@ theorem C17_cofactor_full_dyn (cap : Nat) (ext : Nat → Nat) (m : Mgr) (hD : Dy
 
 example : DynTotal capSt.ext capM (cofactorCap 6 2 [(Key.name "a", true)] capM) :=
   (C17_cofactor_full_dyn 6 capSt.ext capM capM_dynInv).1 _ _
+
+/-! ## `compose` / `let` with functions -/
+
+theorem C17_compose_layer_is_model :
+    (∀ j fu f g c, composeFG findOrAdd ite j fu f g c = composeF j fu f g c) ∧
+    (∀ sub fu f c, vectorComposeFG findOrAdd ite sub fu f c = vectorComposeF sub fu f c) ∧
+    composeG findOrAdd ite = compose ∧ (∀ d u, letRefsG compose d u = letOp (.refs d) u) :=
+  ⟨composeFG_model, vectorComposeFG_model, composeG_model, letRefsG_model⟩
+
+/-- GENERIC: `_compose` over ANY `find_or_add` / nested `ite` with three-outcome specifications -/
+theorem C17_compose_over (E : Err → Prop) (foa iteX : Int → Int → Int → M Int)
+    (hfoa : FoaX E foa) (hite : IteNestedX E iteX) (j fu : Nat) (m : Mgr) (f g : Int)
+    (cache : HashMap (Int × Int) Int) (hI : Inv m) (hq : Quiet m) (hf : m.tbl.Mem f)
+    (hg : m.tbl.Mem g) (hmemo : KMemo j m.tbl cache)
+    (hfu : 2 * m.nvars + 1 ≤ fu + m.tbl.levelOf f + m.tbl.levelOf g) :
+    OutcomeX2 E m (fun r c m' => KMemo j m'.tbl c ∧ KPost j m'.tbl f g r)
+      (composeFG foa iteX j fu f g cache m) :=
+  composeFG_outX E foa iteX hfoa hite j fu m f g cache hI hq hf hg hmemo hfu
+
+/-- C17 `BDD.compose` and `BDD.let` with functions, `max_nodes = cap`: ANY node, ANY dictionary
+(one variable: `_compose`; several: `_vector_compose`), whatever they return or raise: `DynTotal` -/
+theorem C17_compose_full_dyn (cap : Nat) (ext : Nat → Nat) (m : Mgr) (hD : DynInv ext m) :
+    (∀ f varSub, DynTotal ext m (composeCap cap f varSub m)) ∧
+    (∀ d u, DynTotal ext m (letRefsG (composeCap cap) d u m)) :=
+  ⟨composeCap_total_dyn cap ext m hD, letRefsCap_total_dyn cap ext m hD⟩
+
+/-! ## `rename` / `let` with names / `copy_bdd` -/
+
+theorem C17_rename_layer_is_model :
+    (∀ src lm fu u c, copyBddFG findOrAdd ite src lm fu u c = copyBddF src lm fu u c) ∧
+    renameG findOrAdd ite = rename ∧ copyBddG findOrAdd ite = copyBdd ∧
+    (∀ d u, letNamesG rename d u = letOp (.names d) u) :=
+  ⟨copyBddFG_model, renameG_model, copyBddG_model, letNamesG_model⟩
+
+/-- GENERIC: `_copy_bdd` over ANY `find_or_add` / nested `ite` that are total on arbitrary
+integers (only nodes added, whatever they answer) is total: ANY node, level map, source table -/
+theorem C17_copy_over (foa iteX : Int → Int → Int → M Int) (hvar : VarTotX foa) (hiteT : IteTotX iteX)
+    (src : Option Tbl) (lm : List (Nat × Nat)) (fu : Nat) (u : Int) (cache : HashMap Nat Int)
+    (m : Mgr) (hI : Inv m) (hc : m.ctx = true) : TotE m (copyBddFG foa iteX src lm fu u cache m) :=
+  copyBddFG_totE foa iteX hvar hiteT src lm fu u cache m hI hc
+
+/-- C17 `BDD.rename`, `BDD.let` with names, and `copy_bdd(u, from, to)` INTO a manager with
+`max_nodes = cap`: ANY arguments, whatever they return or raise: `DynTotal` -/
+theorem C17_rename_full_dyn (cap : Nat) (ext : Nat → Nat) (m : Mgr) (hD : DynInv ext m) :
+    (∀ u dvars, DynTotal ext m (renameCap cap u dvars m)) ∧
+    (∀ d u, DynTotal ext m (letNamesG (renameCap cap) d u m)) ∧
+    (∀ src u, DynTotal ext m (copyBddCap cap src u m)) :=
+  ⟨renameCap_total_dyn cap ext m hD, letNamesCap_total_dyn cap ext m hD, copyBddCap_total_dyn cap ext m hD⟩
+
+example : DynTotal capSt.ext capM (composeCap 6 2 [("a", 3)] capM) :=
+  (C17_compose_full_dyn 6 capSt.ext capM capM_dynInv).1 _ _
+example : DynTotal capSt.ext capM (renameCap 6 3 [("b", "a")] capM) :=
+  (C17_rename_full_dyn 6 capSt.ext capM capM_dynInv).1 _ _
 
 end DD
